@@ -363,6 +363,12 @@ class Analyzer:
             nm = callee_name(e)
             if nm in ALWAYS_NONNULL_CALLS or (nm and nm[:1].isupper()):
                 return NONNULL
+            if isinstance(e.func, ast.Name):
+                # a local that only ever holds constructors of non-null values (convert = int ... convert = float)
+                stores = [n for n in walk_local(self.fn) if isinstance(n, ast.Name) and n.id == e.func.id and isinstance(n.ctx, ast.Store)]
+                if stores and all(isinstance(getattr(n, "_parent", None), ast.Assign) and len(n._parent.targets) == 1 and isinstance(n._parent.value, ast.Name)
+                                  and n._parent.value.id in ("int", "float", "str") for n in stores):
+                    return NONNULL
         return MAYBE
 
     # ------------------------------------------------------------ refinement
@@ -955,7 +961,16 @@ def _parses_entry_slice(y, fn):
     """y contains int(<s>) / float(<s>) where <s> is (a local bound once to) the slice t[<entry alias>:<cursor>]: both raise on an
     empty string, so a normal return has consumed at least one character"""
     for c in ast.walk(y):
-        if isinstance(c, ast.Call) and isinstance(c.func, ast.Name) and c.func.id in ("int", "float") and len(c.args) == 1:
+        if isinstance(c, ast.Call) and isinstance(c.func, ast.Name) and len(c.args) == 1:
+            conv = {c.func.id}
+            if c.func.id not in ("int", "float"):
+                # a local that only ever holds one of the two converters
+                cdefs = [n for n in walk_local(fn) if isinstance(n, ast.Name) and n.id == c.func.id and isinstance(n.ctx, ast.Store)]
+                conv = {n._parent.value.id if isinstance(getattr(n, "_parent", None), ast.Assign) and len(n._parent.targets) == 1 and isinstance(n._parent.value, ast.Name) else None for n in cdefs}
+                if not cdefs:
+                    continue
+            if not conv <= {"int", "float"}:
+                continue
             a = c.args[0]
             if isinstance(a, ast.Name):
                 defs = [n for n in walk_local(fn) if isinstance(n, ast.Assign) and any(isinstance(t, ast.Name) and t.id == a.id for t in n.targets)]
